@@ -1125,7 +1125,7 @@ fn quiet_apex<'f>(
 static H_NSE_GLUE: [(usize, bool); 2] = [(N_NSE, false), (N_NSE, true)];
 static H_NSD_GLUE: [(usize, bool); 2] = [(N_NSD, false), (N_NSD, true)];
 
-// @harness kani="--no-assertion-reach-checks" props=C21 tier=quick mem=3 t=900 cbmc="--max-field-sensitivity-array-size 256"
+// @harness replay=solver kani="--no-assertion-reach-checks" props=C21 tier=quick mem=3 t=900 cbmc="--max-field-sensitivity-array-size 256"
 //   fn="validation::scan_node,check_delegation_ns_address,check_glue,class_has_addrs,addrs_found"
 //   bound="scan_node on node d. {NS ns.e.} where ns.e. lies in the SIBLING delegation e. (plain lookup answers Referral(e.)); the glue lookup (search_below_cuts) symbolic: 5 kinds, A/AAAA presence; class and glue policy symbolic: narrow needs no glue, wide does; unwind 4"
 //   sym="class, policy, 1 table entry" stubs="S1,M1"
@@ -1144,7 +1144,7 @@ fn c21_scan_delegation_sibling_ns() {
     kani::cover!(e.is_empty() && wide && class_code == 1 && matches!(t1, Ans::Found { a: true, .. }), "wide: sibling glue present");
 }
 
-// @harness kani="--no-assertion-reach-checks" props=C21 tier=quick mem=6 t=1800 cbmc="--max-field-sensitivity-array-size 256"
+// @harness replay=solver kani="--no-assertion-reach-checks" props=C21 tier=quick mem=6 t=1800 cbmc="--max-field-sensitivity-array-size 256"
 //   fn="validation::scan_node,check_delegation_ns_address,check_glue,class_has_addrs,addrs_found"
 //   bound="scan_node on node d. {NS ns.d.}; plain lookup of ns.d.: each of the 5 kinds in turn (Found with symbolic A/AAAA presence, Cname, NxDomain, Referral(d.), WrongZone) x a symbolic answer to the glue lookup (5 kinds, A/AAAA presence); class and glue policy symbolic; unwind 4"
 //   sym="class, policy, A/AAAA presence, glue-lookup table entry" stubs="S1,M1"
@@ -1229,7 +1229,7 @@ static H_NSZ_GLUE: [(usize, bool); 2] = [(N_NSZ, false), (N_NSZ, true)];
 static H_NONE: [(usize, bool); 0] = [];
 static NODES_APEX_NS: [NodeV; 1] = [NodeV { owner: N_APEX, sets: &S_NS_NSZ }];
 
-// @harness kani="--no-assertion-reach-checks" props=C21 tier=quick mem=6 t=1500 cbmc="--max-field-sensitivity-array-size 256"
+// @harness replay=solver kani="--no-assertion-reach-checks" props=C21 tier=quick mem=6 t=1500 cbmc="--max-field-sensitivity-array-size 256"
 //   fn="validation::scan_node,check_delegation_ns_address,Name::is_wildcard"
 //   bound="scan_node on node *. {NS ns.}: plain lookup of ns.: each of the 5 kinds in turn (a referral names d., whose glue lookup fails): NsAtWildcard (warning) in every class plus the delegation checks; and on the apex node . {NS ns.} with ns. non-existent: nothing (the apex NS set is checked through ns(), not here; any address lookup would fail the harness); class, policy symbolic; unwind 4"
 //   sym="class, policy, A/AAAA presence" stubs="S1,M1"
@@ -1271,7 +1271,7 @@ fn c21_scan_wildcard_and_apex_ns() {
 static H_MX: [(usize, bool); 1] = [(N_MX, false)];
 static H_NSZ_MX_PLAIN: [(usize, bool); 2] = [(N_NSZ, false), (N_MX, false)];
 
-// @harness kani="--no-assertion-reach-checks" props=C21 tier=quick mem=4 t=1200 cbmc="--max-field-sensitivity-array-size 256"
+// @harness replay=solver kani="--no-assertion-reach-checks" props=C21 tier=quick mem=4 t=1200 cbmc="--max-field-sensitivity-array-size 256"
 //   fn="validation::scan_node,check_mx_address,class_has_addrs,addrs_found"
 //   bound="scan_node on the apex node . {MX mx.} with lookup_addrs(mx.) symbolic (5 kinds, A/AAAA presence), then on node h. {MX ns., MX mx.} where ns. exists without any address (concrete) and mx. is symbolic: up to two MissingMxAddress warnings; class, policy symbolic; unwind 4"
 //   sym="class, policy, 2 table entries (one per zone)" stubs="S1,M1"
@@ -1355,7 +1355,7 @@ fn c21_scan_ns_and_cnames() {
     kani::cover!(e.has(K_GLUE, N_NSD) && e.has(K_DUP_CNAME, N_D) && e.has(K_CNAME_OTHER, N_D), "three issues from one node");
 }
 
-// @harness kani="--no-assertion-reach-checks" props=C21 tier=quick mem=4 t=600 cbmc="--max-field-sensitivity-array-size 256"
+// @harness replay=solver kani="--no-assertion-reach-checks" props=C21 tier=quick mem=4 t=600 cbmc="--max-field-sensitivity-array-size 256"
 //   fn="validation::scan_node,check_delegation_ns_address"
 //   bound="scan_node on nodes d. {NS ns.} and e. {NS ns.} into one issue set, ns. non-existent (concrete): the issue arises twice and is reported once; class IN, glue policy symbolic; unwind 4"
 //   sym="policy" stubs="S1,M1"
